@@ -35,6 +35,7 @@ type Leaf struct {
 	Via    []string // library functions crossed (innermost last), for diagnostics
 	Sliced bool   // a Slice with explicit bounds was applied on the way
 	V      ssa.Value
+	Args   [][]Leaf // for calls cut by StopAt: the origins of each argument (receiver first)
 }
 
 func (l Leaf) String() string {
@@ -377,7 +378,26 @@ func (sl *Slicer) walkTuple(t ssa.Value, idx int, c *sctx, path string, sliced b
 		} else if call.Call.IsInvoke() {
 			name = "invoke " + call.Call.Method.Name()
 		}
-		sl.emit(Leaf{Kind: LCall, Name: name, V: t, Sliced: sliced}, c)
+		lf := Leaf{Kind: LCall, Name: name, V: t, Sliced: sliced}
+		args := call.Call.Args
+		if call.Call.IsInvoke() {
+			args = append([]ssa.Value{call.Call.Value}, args...)
+		}
+		for _, a := range args {
+			sub := &Slicer{P: sl.P, Root: sl.Root, MaxDepth: sl.MaxDepth, Through: sl.Through, StopAt: sl.StopAt, seen: map[sliceKey]bool{}, out: map[string]Leaf{}}
+			sub.walk(a, c, "", false)
+			var ls []Leaf
+			var keys []string
+			for k := range sub.out {
+				keys = append(keys, k)
+			}
+			sort.Strings(keys)
+			for _, k := range keys {
+				ls = append(ls, sub.out[k])
+			}
+			lf.Args = append(lf.Args, ls)
+		}
+		sl.emit(lf, c)
 		return
 	}
 	if callee != nil && InLib(callee) && len(callee.Blocks) > 0 && c.depth < sl.MaxDepth {
